@@ -528,6 +528,18 @@ def gen_cxx(md, policy=0, introspect=False, frontend="functor"):
                 w("      if (a == H::lib_id(\"%s\", %d)) snap_%s(f.template get_state<M_%s&>(), tag);" % (pstr(path), i, sub, sub))
         w("    }")
         w("  }")
+    # circular-buffer message queues need a capacity before use, at every level
+    for path, m in sorted(machines, key=lambda pm: -len(pm[0])):
+        name = pname(path)
+        w("  static void caps_%s(M_%s& f) {" % (name, name))
+        w("#ifdef H_CIRC")
+        w("    f.get_message_queue().set_capacity(64);")
+        for i, st in enumerate(m["states"]):
+            if st["sub"] is not None:
+                sub = pname(path + (i,))
+                w("    caps_%s(f.template get_state<M_%s&>());" % (sub, sub))
+        w("#endif")
+        w("  }")
     w("};")
     w("#ifdef H_CFG_back_fct")
     for path, m in machines:
@@ -565,7 +577,7 @@ def cxx_guard(r):
 
 def supported(md, cfgname):
     """is the definition inside what the configuration's library accepts (compiles)"""
-    base = cfgname.split(":")[0].split("@")[0]
+    base = cfgname.split(":")[0].split("@")[0].replace("+circ", "")
     for path, m in walk(md["root"]):
         if len(m["rows"]) > 20 or len(m["irows"]) > 20 or any(len(st["sirows"]) > 20 for st in m["states"]):
             return False      # the harness writes tables as mpl::vector (20 rows)
@@ -591,7 +603,7 @@ def adapt(md, cfgname):
     if supported(md, cfgname):
         return md
     md2 = copy.deepcopy(md)
-    base = cfgname.split(":")[0].split("@")[0]
+    base = cfgname.split(":")[0].split("@")[0].replace("+circ", "")
     if base in ("back_fct", "mp11_fct", "mp11_fpa", "back11"):
         # replace Kleene triggers and drop the inheritance between event types
         md2["parents"] = [None] * len(md2["parents"])
@@ -608,6 +620,6 @@ def adapt(md, cfgname):
 
 def adapt_ops(ops, cfgname):
     """operations that only one engine offers are replaced for the others: move construction exists for backmp11 only"""
-    if cfgname.split(":")[0].split("@")[0].startswith("mp11"):
+    if cfgname.split(":")[0].split("@")[0].replace("+circ", "").startswith("mp11"):
         return ops
     return [("copy", o[1], o[2]) if o[0] == "move" else o for o in ops]
